@@ -18,6 +18,7 @@ from vlib import CoqError, cb, cl, cn, co, cp, cq, cz, coq_eval_bools, coq_eval_
 IMPORTS = "From PV Require Import C15.Model C15.Spec.\nLocal Open Scope Z_scope.\n"
 TOL = "(1 # 1000000000000)%Q"
 UNIT = 8  # metrics and thresholds are multiples of 1/8
+SHARD = 100  # cases per coqc process (the audit streams have longer runs and larger rationals: keep shards short)
 BASE = ["epoch", "es_resume_cd", "es_patience_cd", "rlr_resume_cd", "rlr_patience_cd", "lr", "train_met", "val_met"]
 TYPES = {"int": int, "str": str}
 THEOREMS = ["c15_trace_follows_rules", "c15_stop_iff_rule", "c15_lr_changes_iff_rule", "c15_lr_written_to_optimizer",
@@ -29,43 +30,115 @@ THEOREMS = ["c15_trace_follows_rules", "c15_stop_iff_rule", "c15_lr_changes_iff_
 # ------------------------------------------------------------------------------------------
 
 
-def _params(P):
+# user entry n is called "u<n>"; cases with names == "odd" use legal but unusual names instead: extensions / prefixes of
+# the reserved column names, names that are prefixes of each other, names with the csv separator, quotes and blanks
+ODD_NAMES = ["lr_", "e", "epoch2", "a,b", 'q"t', "val met", "u1", "u10", "es_resume_cd2", "'"]
+
+
+def uname(case, n):
+    return ODD_NAMES[n % len(ODD_NAMES)] if case.get("names") == "odd" else "u%d" % n
+
+
+def _params(P, api=None):
     from pydrobert.torch.training import TrainingStateParams
 
-    return TrainingStateParams(
+    api = api or {}
+
+    def thr(v):  # thresholds as python ints when integral (api "ints"): 0 rather than 0.0
+        return v // UNIT if api.get("ints") and v % UNIT == 0 else v / UNIT
+
+    kw = dict(
         num_epochs=P["num"], log10_learning_rate=P["l10lr"],
-        early_stopping_threshold=P["es_thr"] / UNIT, early_stopping_patience=P["es_pat"],
+        early_stopping_threshold=thr(P["es_thr"]), early_stopping_patience=P["es_pat"],
         early_stopping_burnin=P["es_burn"],
-        reduce_lr_threshold=P["rlr_thr"] / UNIT, reduce_lr_patience=P["rlr_pat"],
+        reduce_lr_threshold=thr(P["rlr_thr"]), reduce_lr_patience=P["rlr_pat"],
         reduce_lr_cooldown=P["rlr_cool"], reduce_lr_burnin=P["rlr_burn"],
         reduce_lr_factor=P["fac"], reduce_lr_log10_epsilon=P["l10eps"])
+    if "keep" in P:
+        kw["keep_last_and_best_only"] = bool(P["keep"])
+    if api.get("setattr"):  # default-constructed, then assigned
+        prm = TrainingStateParams()
+        for k, v in kw.items():
+            setattr(prm, k, v)
+        return prm
+    return TrainingStateParams(**kw)
 
 
 class _Session:
-    """One controller + model + optimizer built the documented way."""
+    """One controller + model + optimizer built the documented way.  case["api"] (optional) selects among the equivalent
+    public ways of doing the same thing: optimizer class / number of parameter groups, keyword or positional construction
+    and calls, explicit epoch arguments, self[epoch] or get_info, restart on the same controller object."""
 
     def __init__(self, case, d):
         from pydrobert.torch.training import TrainingStateController
 
-        self.model = torch.nn.Linear(1, 1)
-        # two parameter groups: the new rate must reach every one of them
-        self.optim = torch.optim.SGD([{"params": [self.model.weight]}, {"params": [self.model.bias]}], lr=case["dflt"])
-        self.ctl = TrainingStateController(_params(case["P"]), os.path.join(d, "hist.csv"), os.path.join(d, "states"))
+        api = self.api = case.get("api") or {}
+        self.case = case
+        prm = _params(case["P"], api)
+        csvp, sdir = os.path.join(d, "hist.csv"), os.path.join(d, "states")
+        if api.get("kwctor"):
+            self.ctl = TrainingStateController(params=prm, state_dir=sdir, state_csv_path=csvp, warn=False)
+        else:
+            self.ctl = TrainingStateController(prm, csvp, sdir)
         for name, typ in case["decl"]:
-            self.ctl.add_entry("u%d" % name, TYPES[typ])
-        self.ctl.load_model_and_optimizer_for_epoch(self.model, self.optim)
+            if api.get("kwctor"):
+                self.ctl.add_entry(name=uname(case, name), typ=TYPES[typ])
+            else:
+                self.ctl.add_entry(uname(case, name), TYPES[typ])
+        self.fresh()
+        self.load()
+
+    def fresh(self):
+        self.model = torch.nn.Linear(1, 1)
+        # (by default) two parameter groups: the new rate must reach every one of them
+        if self.api.get("groups", 2) == 1:
+            groups = [self.model.weight, self.model.bias]
+        else:
+            groups = [{"params": [self.model.weight]}, {"params": [self.model.bias]}]
+        cls = torch.optim.Adam if self.api.get("optim") == "adam" else torch.optim.SGD
+        self.optim = cls(groups, lr=self.case["dflt"])
+
+    def load(self):
+        if self.api.get("expl_load"):
+            self.ctl.load_model_and_optimizer_for_epoch(self.model, self.optim, epoch=self.ctl.get_last_epoch())
+        else:
+            self.ctl.load_model_and_optimizer_for_epoch(self.model, self.optim)
+
+    def soft_restart(self, mode):
+        """the same controller object re-reads the history file; model and optimizer are reloaded from the state
+        directory, into new objects (mode 1) or into the existing ones (mode 2)"""
+        self.ctl.update_cache()
+        if mode == 1:
+            self.fresh()
+        self.load()
+
+    def update(self, st):
+        case, api = self.case, self.api
+        kw = {uname(case, n): v for n, v in st["kw"]}
+        if st.get("ep"):
+            kw["epoch"] = self.ctl.get_last_epoch() + 1
+        if st.get("bit"):
+            kw["best_is_train"] = True
+        tr, va = st["train"] / UNIT, st["val"] / UNIT
+        if api.get("kwcall"):
+            return self.ctl.update_for_epoch(val_met=va, train_met=tr, optimizer=self.optim, model=self.model, **kw)
+        return self.ctl.update_for_epoch(self.model, self.optim, tr, va, **kw)
 
 
-def _info(ctl, epoch, decl):
-    info = ctl.get_info(epoch, None)
+def _info(ctl, epoch, case, getitem=False):
+    decl = case["decl"]
+    if getitem:
+        info = ctl[epoch] if epoch in ctl.cache_hist else None
+    else:
+        info = ctl.get_info(epoch, None)
     if info is None:
         return None
-    keys = set(BASE) | {"u%d" % n for n, _ in decl}
+    keys = set(BASE) | {uname(case, n) for n, _ in decl}
     out = {k: info.get(k) for k in BASE}
     out["extra_keys"] = sorted(set(info) - keys)
     out["user"] = []
     for n, typ in decl:
-        v = info.get("u%d" % n)
+        v = info.get(uname(case, n))
         out["user"].append([n, type(v).__name__, v])
     return out
 
@@ -76,7 +149,7 @@ def run_impl(chk, case, restarts=True):
     d = str(chk.workdir / ("run%d" % os.getpid()))
     shutil.rmtree(d, ignore_errors=True)
     os.makedirs(d)
-    decl = case["decl"]
+    api = case.get("api") or {}
     with warnings.catch_warnings():
         warnings.simplefilter("ignore")
         try:
@@ -85,21 +158,33 @@ def run_impl(chk, case, restarts=True):
             for st in case["steps"]:
                 if restarts and st["restart"]:
                     try:
-                        ses = _Session(case, d)
+                        if api.get("soft"):
+                            ses.soft_restart(api["soft"])
+                        else:
+                            ses = _Session(case, d)
                     except Exception as e:
                         obs.append(["err", exc_kind(e)])
                         continue
-                kw = {"u%d" % n: v for n, v in st["kw"]}
                 try:
-                    cont = ses.ctl.update_for_epoch(ses.model, ses.optim, st["train"] / UNIT, st["val"] / UNIT, **kw)
+                    cont = ses.update(st)
                 except Exception as e:
                     obs.append(["err", exc_kind(e)])
                     continue
                 ep = ses.ctl.get_last_epoch()
-                obs.append(["ok", bool(cont), bool(ses.ctl.continue_training()),
-                            [g["lr"] for g in ses.optim.param_groups], _info(ses.ctl, ep, decl)])
-            cache = [_info(ses.ctl, e, decl) for e in sorted(ses.ctl.cache_hist)]
+                ct = ses.ctl.continue_training(ep) if api.get("ct_epoch") else ses.ctl.continue_training()
+                obs.append(["ok", bool(cont), bool(ct), [g["lr"] for g in ses.optim.param_groups],
+                            _info(ses.ctl, ep, case, api.get("getitem"))])
+            cache = [_info(ses.ctl, e, case) for e in sorted(ses.ctl.cache_hist)]
             keys = sorted(ses.ctl.cache_hist)
+            # continue_training(e) asked again at the end for every epoch: the answer is a function of the history
+            ct_later = []
+            for o in obs:
+                if o[0] == "ok" and o[4] and isinstance(o[4]["epoch"], int) and o[4]["epoch"] in ses.ctl.cache_hist:
+                    try:
+                        now = bool(ses.ctl.continue_training(o[4]["epoch"]))
+                    except Exception as e:
+                        now = exc_kind(e)
+                    ct_later.append([o[4]["epoch"], o[2], now])
             rows, header = [], None
             pth = os.path.join(d, "hist.csv")
             if os.path.exists(pth):
@@ -107,7 +192,7 @@ def run_impl(chk, case, restarts=True):
                     rd = csv.reader(f)
                     lines = list(rd)
                 header, rows = lines[0], lines[1:]
-            return {"obs": obs, "cache": cache, "keys": keys, "header": header, "csv": rows}
+            return {"obs": obs, "cache": cache, "keys": keys, "header": header, "csv": rows, "ct_later": ct_later}
         finally:
             shutil.rmtree(d, ignore_errors=True)
 
@@ -256,9 +341,11 @@ def model_term(case, out, rnd="fmt5 b64", restarts=True, tol=None):
     try:
         if out["keys"] != list(range(len(out["cache"]))):
             raise Bad("cache keys not 0..n")
-        names = BASE + ["u%d" % n for n, _ in decl]
+        names = BASE + [uname(case, n) for n, _ in decl]
         if out["header"] is not None and out["header"] != names:
             raise Bad("csv header")
+        if any(then != now for _, then, now in out.get("ct_later", [])):
+            raise Bad("continue_training(epoch) asked later differs from continue_training() right after that epoch")
         obs = cl([c_obs(o, decl) for o in out["obs"]])
         cache = cl([c_row(r, decl, i == 0) for i, r in enumerate(out["cache"])])
         rows = cl([c_crow(r) for r in out["csv"]])
@@ -294,7 +381,7 @@ def source_tie(chk, cases, outs, res):
     with the implementation are used, so that a disagreement here is the tie's and not the model's."""
     idx = [i for i in range(len(cases)) if res[i]]
     try:
-        sres = coq_eval_bools(chk.workdir, IMPORTS_SRC, [src_term(cases[i], outs[i]) for i in idx], tag="src")
+        sres = coq_eval_bools(chk.workdir, IMPORTS_SRC, [src_term(cases[i], outs[i]) for i in idx], shard=SHARD, tag="src")
     except CoqError as e:
         chk.extra["source_tie_run"] = "not evaluated: " + str(e)[-400:]
         return
@@ -513,6 +600,156 @@ def random_case(rng, stream="random"):
                    trains=[rng.randint(0, 80) for _ in range(L)], stream=stream)
 
 
+# ---- robustness-audit streams ---------------------------------------------------------------------------
+# (notes/AUDIT_GUIDE.md) entry points, call history, falsy / boundary parameters, numeric extremes, unusual names and
+# cell contents, optional arguments.  All of them are judged by the same Model.check (and the restart / rules relations).
+
+STR_POOL = ["", "", "", " ", "0", "None", "False", "a,b", '"', "''", "x y", "1e5", "-0", "007", " lead", "trail ", ",",
+            '""', "nan", "u1"]
+INT_POOL = [0, 0, 0, -1, 1, -0, 7, 255, 256, -32768, 10 ** 18, -10 ** 30, 2 ** 63, 2 ** 64 + 1]
+
+
+def decorate(rng, case, p=1.0):
+    """choose among the equivalent public ways of driving the controller (does not change what the model predicts)"""
+    if rng.random() >= p:
+        return case
+    api = dict(optim=rng.choice(["sgd", "sgd", "adam"]), groups=rng.choice([2, 2, 1]), kwctor=rng.random() < 0.3,
+               kwcall=rng.random() < 0.35, getitem=rng.random() < 0.5, ct_epoch=rng.random() < 0.5,
+               expl_load=rng.random() < 0.35, soft=rng.choice([0, 0, 0, 1, 2]), ints=rng.random() < 0.5,
+               setattr=rng.random() < 0.25)
+    pe, pb = rng.choice([0.0, 0.3, 1.0]), rng.choice([0.0, 0.0, 0.5])
+    steps = [dict(s, ep=rng.random() < pe, bit=rng.random() < pb) for s in case["steps"]]
+    P = dict(case["P"])
+    if rng.random() < 0.3:
+        P["keep"] = False
+    return dict(case, api=api, steps=steps, P=P)
+
+
+def _metrics(rng, L, step, mode, lo=-48):
+    """validation metrics (eighths), negative values included; "stall" sits on a plateau so that countdowns run down"""
+    vals, v = [], rng.choice([-40, -8, 0, 8, 24, 60])
+    for _ in range(L):
+        if mode == "stall":
+            v = v + rng.choice([0, 0, 0, 0, step - 1, 1 - step, step // 2, -(step // 2), step, -step])
+        elif mode == "descend":
+            v = v - rng.choice([0, step - 1, step, step, step + 1, 2 * step])
+        elif mode == "walk":
+            v = v + rng.choice([-2, -1, 0, 1, 2]) * step
+        else:
+            v = rng.randint(lo, 96)
+        v = max(-790, min(790, v))
+        vals.append(v)
+    return vals
+
+
+def _rate_setup(rng):
+    """(regime, default rate, factor, log10 rate, log10 epsilon, first rate): extremes of the numeric options; epsilon
+    strictly between the reduced rate and the size of the reduction (a test on the wrong quantity shows), exactly equal
+    to the reduction (strict test), larger than every rate, zero"""
+    if rng.random() < 0.2:  # decimal factors close to the ends of (0, 1)
+        dflt, fac = rng.choice([(1.0, 0.999), (2.0, 0.001), (0.3, 0.99), (0.5, 0.9), (0.01, 0.1), (1.0, 0.7)])
+        return "D", dflt, fac, None, rng.choice([-8, -8, -4, -300, -400]), dflt
+    fac = rng.choice([0.5, 0.5, 0.25, 0.25, 0.125, 0.75, 0.625])
+    pow2 = fac in (0.5, 0.25, 0.125)
+    l10lr = rng.choice([None, None, 0, 0, 1, -2, -0.5, -30]) if pow2 else None
+    dflt = rng.choice([1.0, 1.0, 2.0, 0.5, 2.0 ** -40, 2.0 ** 40, 1e-30, 1e30, 0.0123456789, 1e-9, 3.0, 1000.0])
+    if not pow2:
+        dflt = rng.choice([1.0, 3.0, 64.0, 2.0 ** -20])
+    k = rng.choice(["std", "std", "between", "between", "equal", "huge", "zero", "tiny"])
+    if k == "between" and fac != 0.5:
+        g = math.sqrt(fac * (1 - fac))
+        if (dflt if l10lr is None else 10 ** l10lr) * g >= 1:
+            dflt, l10lr = rng.choice([1.0, 0.5, 2.0 ** -20]), None
+        lr = dflt if l10lr is None else 10 ** l10lr
+        l10eps = math.log10(lr * fac ** rng.choice([0, 1, 2]) * g)
+    elif k == "equal":
+        # old - new == epsilon needs a power of ten: rate 2 (or 4) with factor .5 and epsilon 10**0
+        l10eps, l10lr, dflt, fac = 0, None, rng.choice([2.0, 4.0, 1.0]), 0.5
+    elif k == "huge":
+        l10eps = 0
+    elif k == "zero":
+        l10eps = rng.choice([-400, -330])
+    elif k == "tiny":
+        l10eps = rng.choice([-300, -30, -12])
+    else:
+        l10eps = rng.choice([-8, -8, -3, -1])
+    return "E", dflt, fac, l10lr, l10eps, (dflt if l10lr is None else 10 ** l10lr)
+
+
+def _entries(rng, L, heavy=False):
+    """declared entries + kwargs per epoch; cells drawn from pools of falsy / separator / number-like contents"""
+    nd = rng.choice([1, 1, 2, 3]) if heavy else rng.choice([0, 0, 0, 1, 2])
+    decl = [(n, rng.choice(["int", "str", "str"])) for n in rng.sample(range(8), nd)]
+    kws = []
+    for i in range(L):
+        kw = []
+        for n, t in decl:
+            if t == "int":
+                v = rng.choice(INT_POOL) if rng.random() < 0.6 else rng.randint(-50, 10 ** rng.randint(0, 12))
+            else:
+                v = rng.choice(STR_POOL) if rng.random() < 0.7 else "".join(rng.choice('ab ,"\'0-') for _ in range(rng.randint(0, 5)))
+            kw.append([n, v])
+        rng.shuffle(kw)
+        kws.append(kw)
+    return decl, kws
+
+
+def boundary_case(rng, kind):
+    """kind: "boundary" (extreme / falsy values of every numeric option), "cooldown" (cool-down differs from burn-in, metric
+    stalls so that the rate is reduced at least once, restarts afterwards), "entries" (user entries with unusual contents
+    and names, restarted after every kind of cell)"""
+    L = rng.choice([1, 2, 3, 5, 6, 8, 10, 11, 12]) if kind == "boundary" else rng.choice([4, 5, 6, 8, 10, 12])
+    if kind == "boundary":
+        P = dict(es_thr=rng.choice([0, 0, 1, 4, 8, 800]), es_pat=rng.choice([1, 1, 2, L, L + 1, 10, 12]),
+                 es_burn=rng.choice([0, 0, 1, max(0, L - 1), L, 10]),
+                 rlr_thr=rng.choice([0, 1, 4, 8, 8, 800]), rlr_pat=rng.choice([1, 1, 2, 3, L, 10]),
+                 rlr_cool=rng.choice([0, 0, 1, 2, L, 10, 11]), rlr_burn=rng.choice([0, 0, 1, 3, L, 10]),
+                 num=rng.choice([None, None, 1, 2, L, L + 1, 10, 100]))
+    elif kind == "cooldown":
+        P = dict(es_thr=rng.choice([0, 0, 4, 8]), es_pat=rng.choice([2, 3, 4, 12]), es_burn=rng.choice([0, 1, 2]),
+                 rlr_thr=rng.choice([4, 8, 800]), rlr_pat=rng.choice([1, 1, 2]), rlr_burn=rng.choice([0, 0, 1, 2, 3]),
+                 num=rng.choice([None, None, L, L + 1]))
+        P["rlr_cool"] = rng.choice([c for c in [0, 1, 2, 3, 4] if c != P["rlr_burn"]])
+    else:
+        P = dict(es_thr=rng.choice([0, 4]), es_pat=rng.choice([1, 2, 3]), es_burn=rng.choice([0, 1]),
+                 rlr_thr=rng.choice([0, 4, 8]), rlr_pat=rng.choice([1, 2]), rlr_cool=rng.choice([0, 1]),
+                 rlr_burn=rng.choice([0, 1]), num=rng.choice([None, None, L, 10]))
+    regime, dflt, fac, l10lr, l10eps, start = _rate_setup(rng)
+    if kind == "cooldown" and rng.random() < 0.6:  # make sure the reductions are not negligible
+        l10eps = -8 if start * (1 - fac) * fac ** 3 > 1e-6 else -400
+    if kind == "entries" and rng.random() < 0.7:
+        regime, dflt, fac, l10lr, l10eps = "E", 1.0, 0.5, None, -8
+    P.update(fac=fac, l10lr=l10lr, l10eps=l10eps)
+    step = max(2, min(16, max(P["es_thr"], P["rlr_thr"])))
+    mode = "stall" if kind == "cooldown" else rng.choice(["stall", "stall", "descend", "walk", "noisy"])
+    vals = _metrics(rng, L, step, mode)
+    decl, kws = _entries(rng, L, heavy=kind == "entries")
+    pr = rng.choice([0.0, 0.25, 0.5, 1.0]) if kind == "boundary" else rng.choice([0.25, 0.5, 1.0])
+    restarts = {i for i in range(L) if rng.random() < pr}
+    if kind != "boundary" and L > 1:
+        restarts.add(rng.randrange(L // 2, L))  # a restart late enough to re-read what the stream is about
+    c = mk_case(P, vals, restarts, dflt=dflt, decl=decl, regime=regime, kws=kws or None,
+                trains=[rng.randint(-80, 80) for _ in range(L)], stream=kind)
+    if decl and rng.random() < 0.5:
+        c["names"] = "odd"
+    return decorate(rng, c, 0.75)
+
+
+def audit_cases(chk, cases):
+    """new streams, drawn from a generator derived from the run's seed AFTER the older streams were built (those stay what
+    they were); a third of the older random cases are re-driven through the alternative entry points"""
+    import random as _random
+    rng = _random.Random(chk.rng.getrandbits(64))
+    for i, c in enumerate(cases):
+        if c["stream"] == "random" and rng.random() < 0.35:
+            cases[i] = decorate(rng, c)
+    n = {"boundary": 1100, "cooldown": 500, "entries": 500} if chk.tier == "thorough" else \
+        {"boundary": 110, "cooldown": 50, "entries": 50}
+    for kind in ("boundary", "cooldown", "entries"):
+        cases += [boundary_case(rng, kind) for _ in range(n[kind])]
+    return cases
+
+
 def gen_cases(chk):
     cases = deterministic_cases() + exhaustive_cases(chk)
     for c in load_corpus("C15"):
@@ -521,7 +758,7 @@ def gen_cases(chk):
         cases.append(c)
     n = 6000 if chk.tier == "thorough" else 700
     cases += [random_case(chk.rng) for _ in range(n)]
-    return cases
+    return audit_cases(chk, cases)
 
 
 def nontrivial(case, out):
@@ -569,6 +806,17 @@ def _cands(case):
             yield dict(case, P=dict(case["P"], **{key: case["P"][key] - 1}))
     if case["P"]["num"] is not None:
         yield dict(case, P=dict(case["P"], num=None))
+    if case.get("api"):
+        yield {k: v for k, v in case.items() if k != "api"}
+        for k, v in case["api"].items():
+            if v not in (False, 0, 2, "sgd"):
+                yield dict(case, api=dict(case["api"], **{k: {"groups": 2, "optim": "sgd"}.get(k, 0)}))
+    if any(s.get("ep") or s.get("bit") for s in case["steps"]):
+        yield dict(case, steps=[{k: v for k, v in s.items() if k not in ("ep", "bit")} for s in case["steps"]])
+    if case.get("names"):
+        yield {k: v for k, v in case.items() if k != "names"}
+    if "keep" in case["P"]:
+        yield dict(case, P={k: v for k, v in case["P"].items() if k != "keep"})
 
 
 def _has_errors(out):
@@ -614,8 +862,39 @@ def run(chk, cases=None):
         chk.count("outcome=" + ("error" if _has_errors(out) else "stopped" if any(not o[1] for o in oks) else "running"))
         rates = {o[3][0] for o in oks}
         chk.count("rate_changes=%d" % min(3, max(0, len(rates) - 1)))
+        # robustness dimensions (notes/AUDIT_GUIDE.md)
+        api = c.get("api") or {}
+        for k in sorted(api):
+            if api[k] not in (False, 0):
+                chk.count("api %s=%s" % (k, api[k]))
+        chk.count("api: " + ("alternative entry points" if api else "default calls"))
+        if any(s.get("ep") for s in c["steps"]):
+            chk.count("api explicit epoch argument")
+        if any(s.get("bit") for s in c["steps"]):
+            chk.count("api best_is_train")
+        if c.get("names"):
+            chk.count("names=" + c["names"])
+        if "keep" in P:
+            chk.count("keep_last_and_best_only=%s" % P["keep"])
+        last_restart = max([i for i, s in enumerate(c["steps"]) if s["restart"]], default=-1)
+        reread = [v for s in c["steps"][:max(last_restart, 0)] for _, v in s["kw"]]
+        if "" in reread:
+            chk.count("cells re-read after a restart: empty string")
+        if any(v == 0 and isinstance(v, int) for v in reread):
+            chk.count("cells re-read after a restart: int 0")
+        if len(rates) > 1 and P["rlr_cool"] != P["rlr_burn"]:
+            chk.count("rate reduced with cool-down != burn-in" + (" and restarted" if last_restart > 0 else ""))
+        if len(rates) > 1 and P["l10lr"] is not None and last_restart > 0:
+            chk.count("log10_learning_rate set, rate reduced, restarted")
+        chk.count("l10eps: " + ("0" if P["l10eps"] == 0 else "<= -300" if P["l10eps"] <= -300 else
+                                "non-integer" if P["l10eps"] != int(P["l10eps"]) else "ordinary"))
+        chk.count("num_epochs: " + ("None" if P["num"] is None else "1" if P["num"] == 1 else ">= 10" if P["num"] >= 10 else "2..9"))
+        if min(s["val"] for s in c["steps"]) < 0:
+            chk.count("negative metrics")
+        if max(P["es_pat"], P["rlr_pat"], P["es_burn"], P["rlr_burn"], P["rlr_cool"]) >= 10:
+            chk.count("two-digit patience / burn-in / cool-down")
     cases = kept
-    res = coq_eval_bools(chk.workdir, IMPORTS, terms)
+    res = coq_eval_bools(chk.workdir, IMPORTS, terms, shard=SHARD)
     bad = [i for i, ok in enumerate(res) if not ok]
     chk.extra["model_disagreements"] = len(bad)
     source_tie(chk, cases, outs, res)
@@ -637,12 +916,18 @@ def run(chk, cases=None):
         if not _has_errors(po) and key not in {k for k, _ in spec_idx}:
             spec_idx.append((key, i))
             spec_terms.append(spec_term(c, po))
-    sres = coq_eval_bools(chk.workdir, IMPORTS, spec_terms, tag="spec")
+    sres = coq_eval_bools(chk.workdir, IMPORTS, spec_terms, shard=SHARD, tag="spec")
     spec_bad = [spec_idx[j][1] for j, ok in enumerate(sres) if not ok]
     chk.extra["spec_judged_runs"] = len(spec_terms)
     chk.extra["restart_vs_uninterrupted_differences"] = len(diffs)
 
     concrete = False
+    for i in [i for i, o in enumerate(outs) if any(a != b for _, a, b in o.get("ct_later", []))][:2]:
+        chk.report({"kind": "continue-training-history", "case": cases[i], "impl": outs[i],
+                    "what": "continue_training(epoch), asked at the end of the run, differs from continue_training() right "
+                            "after that epoch although the history of that epoch is the same (impl.ct_later = [epoch, then, now])",
+                    "theorems_at_stake": ["c15_stop_iff_rule"]})
+        concrete = True
     for i in spec_bad[:3]:
         c = cases[i]
         po = plain_cache[json.dumps(_plain(c), sort_keys=True)]
